@@ -628,3 +628,37 @@ R.contract(
     },
     replayable=False,
 )
+
+
+# ------------------------------------------------------------------------------------------------- can_negate_path_parameters: "nothing to negate" is said only when NO path parameter admits an invalid value
+def _can_negate_recorded(it, env):
+    ans = Bool.make(it, it.path.fresh("can_negate"))
+    it.ghost["negatable"] = it.ghost.get("negatable", []) + [(env["schema"], ans)]
+    return ans
+
+
+R.contract(
+    HY + "can_negate_path_parameters",
+    variant="definition",
+    prop="C02",
+    args={"operation": Obj("spec:Operation", path_parameters=Opq("ParamSet"))},
+    ghost={"props": {}, "negatable": []},
+    setup=lambda it: _cnpp_setup(it),
+    raises=[],
+    ensures={
+        # without path parameters the location is trivially fine; otherwise negatable iff SOME parameter's schema rejects something - every parameter is asked about
+        "negatable_iff_no_parameters_or_some_parameter_rejects_something": "iff(result, length(ghost('props')) == 0 or any(ans for (schema, ans) in ghost('negatable')))",
+        "every_parameter_schema_is_considered": "implies(not result, length(ghost('negatable')) == length(ghost('props')) and all(any(s is ghost('props')[k] for (s, a) in ghost('negatable')) for k in ghost('props')))",
+    },
+    replayable=False,
+)
+
+
+def _cnpp_setup(it):
+    from pyvc.verify import locate
+
+    c = it.reg.contracts["schemathesis.specs.openapi.negative.utils:can_negate"]
+    c.returns = _can_negate_recorded
+    c.effects = {}
+    _, _, fn = locate(it, HY + "can_negate_path_parameters")
+    return fn, {}
